@@ -250,10 +250,12 @@ Definition q_task_done (i : sid) : M unit :=
   end.
 
 (* drain after the first get: everything up to the end marker, which is put back *)
+Definition MAX_BATCH : nat := 16.      (* Payload.max_decode_packets: a poll returns at most that many packets (fix of D26) *)
 Fixpoint drain (fuel : nat) (i : sid) (acc : list spkt) : M (list spkt) :=
   match fuel with
   | O => ret acc
   | S f =>
+    if Nat.leb MAX_BATCH (length acc) then ret acc else
     ss <- gsess i ;;
     match s_q ss with
     | [] => ret acc
